@@ -344,6 +344,11 @@ func cmdCheck(args []string) int {
 			violations++
 			lines = append(lines, "FAILED-OBLIGATION "+n+" ("+ns.Status+", replayed on the real code)")
 			lines = append(lines, fmt.Sprintf("VIOLATION property=%s replay=%s", prop, replayPath))
+		case strings.HasPrefix(rnote, "arbiter-passed: "):
+			// the unit has a reference-model replay (exhaustive small + random histories against an executable
+			// model of the property) and the real code passes it: a proof that no longer goes through — typically
+			// loop invariants that do not fit a restructured loop — is then not a verdict
+			undecided = append(undecided, fmt.Sprintf("obligation %s is %s, but %s", n, ns.Status, strings.TrimPrefix(rnote, "arbiter-passed: ")))
 		case len(nt) > 0:
 			// the failing path calls a function that has no contract (and had none, or did not exist, when the
 			// baseline was taken): its effects are havoc'd, so the model may be spurious. Modular verification
@@ -825,9 +830,58 @@ func (e *Engine) tryReplay(vd, od, prop string, ns *nameStatus, timeout time.Dur
 			note = rf.Note
 		}
 	}
+	// scenario / reference-model variants of the unit's template: <unit>__<name>.go.tmpl (run once per unit)
+	if ns.Fail != nil && !replayed {
+		base := filepath.Join(vd, "replay", "templates", mangle(strings.ReplaceAll(ns.Fail.Func, "berty.tech/go-orbit-db/", "")))
+		vs, _ := filepath.Glob(base + "__*.go.tmpl")
+		for _, v := range vs {
+			res, ok := variantRuns[e.repoRoot+"|"+v]
+			if !ok {
+				failed, _, out, _ := runReplayTemplateV(e.repoRoot, v, map[string]string{}, false)
+				res = variantRun{failed: failed, out: out, arbiter: isArbiter(v)}
+				variantRuns[e.repoRoot+"|"+v] = res
+			}
+			if res.failed {
+				replayed = true
+				rf.Replayed, rf.TestOutput, rf.Note = true, res.out, "scenario template "+filepath.Base(v)+" fails on the real code"
+				note = rf.Note
+				break
+			}
+			if res.arbiter {
+				rf.Note = "reference-model replay " + filepath.Base(v) + " passes on the real code: the failed proof step is not confirmed by any of its histories"
+				note = "arbiter-passed: " + rf.Note
+			}
+		}
+	}
 	b, _ := json.MarshalIndent(rf, "", " ")
 	os.WriteFile(path, append(b, '\n'), 0o644)
 	return path, replayed, note
+}
+
+type variantRun struct {
+	failed  bool
+	out     string
+	arbiter bool
+}
+
+var variantRuns = map[string]variantRun{}
+
+// isArbiter: a template that declares `// arbiter: yes` is a reference-model test of its unit strong enough to
+// arbitrate a failed proof: when it passes on the real code, failures of that unit are reported as undecided.
+func isArbiter(tmpl string) bool {
+	b, err := os.ReadFile(tmpl)
+	if err != nil {
+		return false
+	}
+	for _, l := range strings.Split(string(b), "\n") {
+		if strings.TrimSpace(l) == "// arbiter: yes" {
+			return true
+		}
+		if strings.HasPrefix(l, "package ") {
+			break
+		}
+	}
+	return false
 }
 
 // parseModelInts extracts integer-valued constants from a get-model answer.
